@@ -1333,10 +1333,7 @@ func (e *Engine) commaOK(st *State, lhs []ast.Expr, r ast.Expr) *State {
 		if !dep.OK || x.Type == nil {
 			return st
 		}
-		tag = "assert|" + dep.Key + "|" + TypeStr(e.Info.TypeOf(x.Type))
-		if vk := e.canon(st, lhs[0]); vk.OK {
-			tag += "|" + vk.Key
-		}
+		tag = "assert|" + TypeStr(e.Info.TypeOf(x.Type))
 	case *ast.IndexExpr:
 		if _, isMap := e.Info.TypeOf(x.X).Underlying().(*types.Map); !isMap {
 			return st
@@ -1346,14 +1343,19 @@ func (e *Engine) commaOK(st *State, lhs []ast.Expr, r ast.Expr) *State {
 			return st
 		}
 		dep = m.merge(k)
+		dep.OK = true
 		tag = "has|" + m.Key + "|" + k.Key
 	default:
+		return st
+	}
+	if !e.tracked(dep) {
 		return st
 	}
 	ak := okK.merge(dep)
 	ak.Key = "alias:" + okK.Key
 	ak.OK = true
-	if n := e.update(st, ak, func(f *Fact) { f.Tags = []string{tag} }); n != nil {
+	d := dep
+	if n := e.update(st, ak, func(f *Fact) { f.Tags = []string{tag}; f.Alias = &d }); n != nil {
 		return n
 	}
 	return st
@@ -1429,25 +1431,20 @@ func (e *Engine) assumeAtom(st *State, x ast.Expr, val bool) *State {
 		return nil
 	}
 	// alias of a comma-ok result
-	if a := n.facts["alias:"+k.Key]; a != nil && len(a.Tags) == 1 {
+	if a := n.facts["alias:"+k.Key]; a != nil && len(a.Tags) == 1 && a.Alias != nil {
 		parts := strings.Split(a.Tags[0], "|")
+		dep := *a.Alias
 		switch parts[0] {
 		case "assert":
-			dep := keyInfo{Key: parts[1], Objs: a.ObjDeps, Fields: a.FieldDeps, Heap: a.Heap, OK: true}
-			n2 := e.assumeTypeKeyStr(n, dep, []string{parts[2]}, false, val)
+			n2 := e.assumeTypeKeyStr(n, dep, []string{parts[1]}, false, val)
 			if n2 == nil {
 				return nil
 			}
 			n = n2
-			if val && len(parts) > 3 {
-				// the bound variable has that dynamic type
-				vk := keyInfo{Key: parts[3], Objs: a.ObjDeps, OK: true}
-				if n3 := e.assumeTypeKeyStr(n, vk, []string{parts[2]}, false, true); n3 != nil {
-					n = n3
-				}
-			}
 		case "has":
-			hk := keyInfo{Key: "has(" + parts[1] + "," + parts[2] + ")", Objs: a.ObjDeps, Fields: a.FieldDeps, Heap: true, OK: true}
+			hk := dep
+			hk.Key = "has(" + parts[1] + "," + parts[2] + ")"
+			hk.Heap = true
 			if n2 := e.update(n, hk, func(f *Fact) {
 				if f.HasEq && f.Eq != want {
 					f.Ne = addSorted(f.Ne, want)
